@@ -79,6 +79,21 @@ CHECKS = {
    "At quiescence of a live connection with all application tasks finished the store holds only remembered local resets (≤ quota), no orphan records, empty send buffer, zero concurrency counters, zero in-flight receive bytes, fully unassigned connection send capacity; `dangling store key` panics are attributed here; a client whose last SendRequest and stream are gone must send GOAWAY(NO_ERROR), shut the transport down and return Ok(()).",
    "Two known findings (push-related leaks) and one record leak are listed in known_findings.json by signature.",
    "DESIGN.md §3 C19"),
+ "C13": ("sim-raw", "exploration",
+   "property-based testing from a grammar: header sections (request/response/interim/trailers + one mutation) and DATA-vs-content-length sequences sent by the reference peer to an h2 server and an h2 client; oracle = RFC 9113 §8 validity predicate (refmodel::http) vs what the receive API delivers; the same predicate runs over every header section either endpoint emits",
+   "Malformed header sections (uppercase, connection-specific, TE, unknown/duplicate/misplaced/wrong-direction/missing pseudo-header fields, CONNECT forms, pseudo-headers in trailers, trailers without END_STREAM, content-length that disagrees with DATA, with HEAD/204/304 exemptions) must never be handed to the application as valid and a mismatching body must not end cleanly; valid oddities must be delivered; programs submitting connection-specific/TE fields check that nothing malformed is emitted.",
+   "Value syntax of individual fields is outside the predicate. Two leniencies pinned by the repository's own tests are listed as known findings.",
+   "DESIGN.md §3 C13, App. B"),
+ "C14": ("sim-raw", "exploration",
+   "property-based testing: generated bursts of SETTINGS/PING interleaved with requests against an h2 server with responses in flight, half of them while the server's writes are blocked behind a finite unread pipe; oracle over the tap: ack sequences vs arrival sequences, plus the acked-settings view applied to everything sent afterwards",
+   "PING acknowledgements must echo payloads in arrival order, never outnumber or precede the frames they answer, and all owed acknowledgements must be on the wire at quiescence of the live connection; frames written after an ACK must obey the acknowledged values (frame size, window deltas on open streams incl. negative windows, HPACK table size with signalled reduction, concurrency) — violations of those monitors are re-attributed to C14.",
+   "Client role and local-settings-at-peer-ACK are covered through the PAIR engines' set_initial_window_size operations and C02/C03 accountants.",
+   "DESIGN.md §3 C14"),
+ "C15": ("sim-raw", "exploration",
+   "property-based testing: graceful/abrupt shutdown of an h2 server at generated moments (optionally with a user PING outstanding) against the reference peer, and GOAWAY(any last-id, any 32-bit code, debug data, optionally two-step) sent to an h2 client with requests on both sides of the cut and late requests; oracle over tap + API log",
+   "Server: GOAWAY last-stream-ids never increase and never fall below a stream already handed to accept(); graceful shutdown sends GOAWAY(2^31-1), then — once its PING is acknowledged — GOAWAY(real id), drains and completes; abrupt shutdown carries the caller's code. Client: streams above the peer's last-stream-id get no response and fail with the peer's exact code, streams at or below it complete in both directions (also when the connection window only suffices after the failed streams returned what they held), no new stream is opened once the GOAWAY was processed, the connection result carries code and debug data.",
+   "Moments are sampled (event-count triggers), not enumerated.",
+   "DESIGN.md §3 C15"),
 }
 
 NOT_YET = "check not built yet in this round (machinery in progress; see DESIGN.md §5 build order)"
@@ -117,7 +132,7 @@ def main():
             {"name": "hpack-enc", "path": "harness/src/eng_hpack.rs", "serves_properties": ["C10"], "kind_free_text": "proptest-driven generated histories through h2's Codec write side; strict reference HPACK decoder as oracle"},
             {"name": "codec", "path": "harness/src/eng_codec.rs", "serves_properties": ["C12"], "kind_free_text": "h2 Codec as Sink/Stream over a scripted transport vs refmodel::wire"},
             {"name": "sim-pair", "path": "harness/src/{sim,sim_pair,eng_pair,oracles,tapx}.rs", "serves_properties": ["C01", "C02", "C04", "C05", "C06", "C07", "C17", "C19"], "kind_free_text": "deterministic simulator: h2 client and server on a waker-faithful single-thread executor over a scripted transport with an independent tap; proptest-generated programs/schedules/chunkings"},
-            {"name": "sim-raw", "path": "harness/src/{sim_raw,eng_raw}.rs", "serves_properties": ["C08", "C09"], "kind_free_text": "h2 endpoint against a scripted frame-level reference peer (cooperative core + generated deviation script) on the deterministic simulator"},
+            {"name": "sim-raw", "path": "harness/src/{sim_raw,eng_raw}.rs", "serves_properties": ["C08", "C09", "C13", "C14", "C15"], "kind_free_text": "h2 endpoint against a scripted frame-level reference peer (cooperative core + generated deviation script) on the deterministic simulator"},
             {"name": "hpack-dec", "path": "harness/src/eng_hpack.rs", "serves_properties": ["C11"], "kind_free_text": "differential h2 decoder vs RFC 7541 reference on generated/mutated/hostile blocks; whole-vs-split through Codec; exhaustive Huffman/integer sub-spaces"},
         ],
         "checks": checks,
